@@ -154,6 +154,9 @@ def gen_cases(tier, seed):
     for N in range(1, 6):
         for via in ("arg", "module"):
             keys.append(dict(part="batched", N=N, via=via))
+    # default worker count: every answer of the environment for the CPU affinity
+    for cpus in (1, 2, 3, 5, 16, 64):
+        keys.append(dict(part="default_workers", cpus=cpus, N=3))
     return keys
 
 
@@ -218,7 +221,52 @@ def mindex(A, sysname):
 
 
 def run_case(key):
-    return {"index": run_index, "theory": run_theory, "extreme": run_extreme, "batched": run_batched}[key["part"]](key)
+    return {"index": run_index, "theory": run_theory, "extreme": run_extreme, "batched": run_batched, "default_workers": run_default_workers}[key["part"]](key)
+
+
+def run_default_workers(key):
+    """misorientation_indices(stack, system) with neither ncpus nor pool: the worker count
+    comes from the environment (CPU affinity).  The harness owns that answer and the pool
+    factory (which, like multiprocessing.Pool, refuses fewer than 1 process)."""
+    import os
+
+    res = empty_result()
+    g, d, s = mods()
+    N = key["N"]
+    system = g.LatticeSystem.triclinic
+    stack = np.array([alph.texture(["random", "cluster", "girdle", "random2", "single"][i], 4) for i in range(N)])
+    direct = [float(d.misorientation_index(stack[i], system)) for i in range(N)]
+    memo, made = {}, []
+
+    def factory(processes=None, *a, **k):
+        p = VirtualPool(processes, [], memo)
+        made.append(p)
+        return p
+
+    old_pool, old_aff = d.Pool, getattr(os, "sched_getaffinity", None)
+    d.Pool = factory
+    os.sched_getaffinity = lambda pid=0: set(range(key["cpus"]))
+    res["n"] = res["states"] = res["trans"] = 1
+    res["clauses"]["default_worker_count"] = 1
+    try:
+        try:
+            out = np.asarray(d.misorientation_indices(stack, system), float)
+            outcome = "returned"
+        except Exception as e:
+            out, outcome = None, "raised:" + type(e).__name__
+    finally:
+        d.Pool = old_pool
+        if old_aff is not None:
+            os.sched_getaffinity = old_aff
+    if out is None:
+        V(res, key, "default_worker_count", {"outcome": outcome, "workers_requested": [p.workers for p in made]}, form=outcome)
+    elif not np.array_equal(out, np.array(direct)):
+        V(res, key, "default_worker_count", {"got": out, "expected": direct}, form="wrong_values")
+    res["nontrivial"].append(digest(key))
+    res["outcomes"].append(outcome + ":" + ",".join(str(p.workers) for p in made))
+    res["obs"] = digest(outcome, out)
+    res["sample"] = {"case": key, "outcome": outcome, "workers": [p.workers for p in made]}
+    return res
 
 
 def run_index(key):
@@ -363,7 +411,9 @@ class VirtualPool:
     in an order chosen by the explorer (self.choices; beyond the prefix: choice 0)."""
 
     def __init__(self, workers, choices, memo):
-        self.workers = max(1, int(workers))
+        if workers is not None and int(workers) < 1:
+            raise ValueError("Number of processes must be at least 1")  # as multiprocessing.Pool
+        self.workers = max(1, int(workers or 1))
         self.choices = list(choices)
         self.points = []  # number of alternatives at every choice point
         self.memo = memo
@@ -494,7 +544,7 @@ def run_batched(key):
                 made = []
 
                 def factory(processes=None, *a, **k):
-                    p = VirtualPool(processes or 1, prefix, memo)
+                    p = VirtualPool(processes, prefix, memo)
                     made.append(p)
                     return p
 
